@@ -11,8 +11,8 @@
    writer side. *)
 From MptV Require Import Base.Mem Base.Tactics C13.QueueModel C13.QueueSpec C13.QueueProofs C13.QueueAlign C13.IoQueueProofs
   Cobs.CobsModel Cobs.DecModel Cobs.EncProofs Cobs.EncTheorems Cobs.DecProofs Cobs.DecCall Cobs.DecHistory
-  Cobs.QueueCodec Cobs.QueuePushProofs Cobs.StreamSpec Cobs.StreamRun Cobs.GlueRun
-  Cobs.WriterHistory Cobs.ReaderHistory Cobs.EndToEnd.
+  Cobs.DecLive Cobs.DecStream Cobs.QueueCodec Cobs.QueuePushProofs Cobs.StreamSpec Cobs.StreamRun Cobs.GlueRun
+  Cobs.WriterHistory Cobs.ReaderHistory Cobs.ReaderStream Cobs.EndToEnd.
 Local Open Scope nat_scope.
 
 (* ---------- the output ring before its first allocation ---------- *)
@@ -342,85 +342,98 @@ Lemma recv_step v rs r d1 : rh_inv v rs -> rh_stop rs = false -> dqueue_recv v (
     match r with
     | RMsg => pend d1 <> [] /\ rh_msgs rs' = rh_msgs rs ++ pend d1
     | _ => pend d1 = [] /\ rh_msgs rs' = rh_msgs rs
-    end)).
+    end)) /\
+  (sstream v (dq_st (rh_d rs)) (contents (dq_q (rh_d rs))) ->
+   rh_stop rs' = false /\ sstream v (dq_st d1) (contents (dq_q d1))).
 Proof.
   intros Hi Est H. cbn zeta.
   pose proof (rh_step_inv v rs RRecv Hi) as Hi'.
   destruct (rh_cinv v rs Hi Est) as (Hq & F & Hc).
   pose proof (dqueue_recv_kinds v F (rh_d rs) r d1 Hq Hc H) as Hk.
+  assert (Hstream : sstream v (dq_st (rh_d rs)) (contents (dq_q (rh_d rs))) -> qlen (dq_q (rh_d rs)) <> 0 ->
+            (r = RMsg \/ r = RMore \/ r = RErr MissingBuffer) /\ sstream v (dq_st d1) (contents (dq_q d1))).
+  { intros Hs Hne. apply (dqueue_recv_stream v F (rh_d rs) r d1 Hq Hc Hs Hne H). }
   unfold rh_step in *. rewrite Est in *.
   destruct (Nat.eqb_spec (qlen (dq_q (rh_d rs))) 0) as [Hz|Hz].
   - unfold dqueue_recv in H. destruct (Nat.eqb_spec (qlen (dq_q (rh_d rs))) 0); [|contradiction].
     inversion H; subst r d1. cbn [rh_d rh_in rh_stop rh_msgs]. split; [reflexivity|]. split; [reflexivity|].
-    right. split; [reflexivity|]. split; [|reflexivity].
-    unfold pend, dst_consumed. cbn [dq_st]. destruct (dmsg (dq_st (rh_d rs))) eqn:Em; cbn [dmsg]; rewrite ?Em; reflexivity.
-  - rewrite H in *. destruct r as [| |e|]; cbn [rh_after rh_d rh_in rh_stop rh_msgs] in *.
-    + split; [reflexivity|]. split; [reflexivity|]. right. split; [reflexivity|].
+    split.
+    + right. split; [reflexivity|]. split; [|reflexivity].
+      unfold pend, dst_consumed. cbn [dq_st]. destruct (dmsg (dq_st (rh_d rs))) eqn:Em; cbn [dmsg]; rewrite ?Em; reflexivity.
+    + intros Hs. split; [reflexivity|]. cbn [dq_q dq_st]. unfold dst_consumed.
+      destruct (dmsg (dq_st (rh_d rs))); [|exact Hs]. exact Hs.
+  - specialize (fun Hs => Hstream Hs Hz).
+    assert (Hns : sstream v (dq_st (rh_d rs)) (contents (dq_q (rh_d rs))) ->
+              rh_stop (rh_after rs (Ok (r, d1))) = false /\ sstream v (dq_st d1) (contents (dq_q d1))).
+    { intros Hs. destruct (Hstream Hs) as [Hk' Hs1]. destruct Hk' as [Hk'|[Hk'|Hk']]; subst r; (split; [reflexivity|exact Hs1]). }
+    rewrite H in *. split; [|split; [|split; [|exact Hns]]]; clear Hns Hstream;
+      [destruct r as [| |e|]; try destruct e; reflexivity|destruct r as [| |e|]; try destruct e; reflexivity|].
+    destruct r as [| |e|]; cbn [rh_after rh_d rh_in rh_stop rh_msgs] in *.
+    + right. split; [reflexivity|].
       destruct (rh_cinv v _ Hi' eq_refl) as (_ & F' & Hc'). cbn [rh_d] in Hc'.
       rewrite (dqueue_message_decoded v F' d1 Hc'). unfold pend.
       destruct (dmsg (dq_st d1)); [|contradiction]. split; [discriminate|reflexivity].
-    + split; [reflexivity|]. split; [reflexivity|]. right. split; [reflexivity|].
+    + right. split; [reflexivity|].
       unfold pend. rewrite Hk. split; reflexivity.
-    + destruct e; cbn [rh_after rh_d rh_in rh_stop rh_msgs]; (split; [reflexivity|]); (split; [reflexivity|]);
-        try (left; reflexivity).
+    + destruct e; cbn [rh_after rh_d rh_in rh_stop rh_msgs]; try (left; reflexivity).
       right. split; [reflexivity|]. unfold pend. rewrite Hk. split; reflexivity.
-    + split; [reflexivity|]. split; [reflexivity|]. left. reflexivity.
+    + left. reflexivity.
 Qed.
 
 (* streamRecv: receive, enlarge on MissingBuffer, receive again *)
+Definition recv_out (v : variant) (rs rs' : rh) (z : Z) (d' : dqueue) : Prop :=
+  rh_inv v rs' /\ rh_d rs' = d' /\ rh_in rs' = rh_in rs /\
+  (rh_stop rs' = true \/
+   (rh_stop rs' = false /\
+    (((0 < z)%Z /\ pend d' <> [] /\ rh_msgs rs' = rh_msgs rs ++ pend d') \/
+     ((z <= 0)%Z /\ pend d' = [] /\ rh_msgs rs' = rh_msgs rs)))) /\
+  (sstream v (dq_st (rh_d rs)) (contents (dq_q (rh_d rs))) ->
+   rh_stop rs' = false /\ sstream v (dq_st d') (contents (dq_q d'))).
+
 Lemma grecv_sim v rs z d' : rh_inv v rs -> rh_stop rs = false -> grecv v (rh_d rs) = Ok (z, d') ->
-  exists rops, let rs' := rh_run v rs rops in
-    rh_inv v rs' /\ rh_d rs' = d' /\ rh_in rs' = rh_in rs /\
-    (rh_stop rs' = true \/
-     (rh_stop rs' = false /\
-      (((0 < z)%Z /\ pend d' <> [] /\ rh_msgs rs' = rh_msgs rs ++ pend d') \/
-       ((z <= 0)%Z /\ pend d' = [] /\ rh_msgs rs' = rh_msgs rs)))).
+  exists rops, recv_out v rs (rh_run v rs rops) z d'.
 Proof.
   intros Hi Est H. unfold grecv in H.
   destruct (dqueue_recv v (rh_d rs)) as [[r d1]| |] eqn:E1; [|discriminate|discriminate]. cbn [bind] in H.
-  destruct (recv_step v rs r d1 Hi Est E1) as (Hd1 & Hin1 & Hcase1).
+  destruct (recv_step v rs r d1 Hi Est E1) as (Hd1 & Hin1 & Hcase1 & Hns1).
   pose proof (rh_step_inv v rs RRecv Hi) as Hi1.
   set (rs1 := rh_step v rs RRecv) in *.
-  assert (Hsimple : forall zz, rres_z r = Ok zz -> Ok (zz, d1) = Ok (z, d') -> r <> RErr MissingBuffer \/ True ->
-            exists rops, let rs' := rh_run v rs rops in
-              rh_inv v rs' /\ rh_d rs' = d' /\ rh_in rs' = rh_in rs /\
-              (rh_stop rs' = true \/
-               (rh_stop rs' = false /\
-                (((0 < z)%Z /\ pend d' <> [] /\ rh_msgs rs' = rh_msgs rs ++ pend d') \/
-                 ((z <= 0)%Z /\ pend d' = [] /\ rh_msgs rs' = rh_msgs rs))))).
-  { intros zz Ez E _. inversion E; subst zz d'. exists [RRecv]. cbn zeta. unfold rh_run. cbn [fold_left]. fold rs1.
-    split; [exact Hi1|]. split; [exact Hd1|]. split; [exact Hin1|].
+  assert (Hsimple : forall zz, rres_z r = Ok zz -> Ok (zz, d1) = Ok (z, d') ->
+            exists rops, recv_out v rs (rh_run v rs rops) z d').
+  { intros zz Ez E. inversion E; subst zz d'. exists [RRecv]. unfold rh_run. cbn [fold_left]. fold rs1.
+    split; [exact Hi1|]. split; [exact Hd1|]. split; [exact Hin1|]. split; [|exact Hns1].
     destruct Hcase1 as [Hs|[Hs Hm]]; [left; exact Hs|right; split; [exact Hs|]].
     destruct r as [| |e|]; cbn [rres_z] in Ez; inversion Ez; subst z.
     - left. split; [lia|exact Hm].
     - right. split; [lia|exact Hm].
     - right. split; [destruct e; cbn; lia|exact Hm]. }
-  destruct r as [| |e|]; [cbn [rres_z bind] in H; apply (Hsimple _ eq_refl H); right; exact I
-                         |cbn [rres_z bind] in H; apply (Hsimple _ eq_refl H); right; exact I| |discriminate].
-  destruct e; try (cbn [rres_z bind] in H; apply (Hsimple _ eq_refl H); right; exact I).
+  destruct r as [| |e|]; [cbn [rres_z bind] in H; apply (Hsimple _ eq_refl H)
+                         |cbn [rres_z bind] in H; apply (Hsimple _ eq_refl H)| |discriminate].
+  destruct e; try (cbn [rres_z bind] in H; apply (Hsimple _ eq_refl H)).
   (* MissingBuffer *)
   destruct Hcase1 as [Hs1|[Hs1 [Hp1 Hm1]]].
   { (* cannot happen: MissingBuffer does not stop the history *)
     unfold rs1, rh_step in Hs1. rewrite Est in Hs1.
     destruct (qlen (dq_q (rh_d rs)) =? 0); [discriminate|]. rewrite E1 in Hs1. discriminate. }
   destruct (rh_cinv v rs1 Hi1 Hs1) as (Hq1 & _). rewrite Hd1 in Hq1.
-  destruct (qprepare_spec (dq_q d1) 64 FILL Hq1) as (q' & fr & Eq & _). rewrite Eq in H.
+  destruct (qprepare_spec (dq_q d1) 64 FILL Hq1) as (q' & fr & Eq & _ & _ & Hcq'). rewrite Eq in H.
   set (rs2 := rh_step v rs1 (RGrow 64 FILL)).
   assert (E2 : rs2 = mkrh (mkdq q' (dq_st d1)) (rh_msgs rs1) false (rh_in rs1)).
   { unfold rs2, rh_step. rewrite Hs1, Hd1, Eq. reflexivity. }
   pose proof (rh_step_inv v rs1 (RGrow 64 FILL) Hi1) as Hi2. fold rs2 in Hi2.
   destruct (dqueue_recv v (mkdq q' (dq_st d1))) as [[r2 d2]| |] eqn:E3; [|discriminate|discriminate]. cbn [bind] in H.
   destruct (rres_z r2) as [z2| |] eqn:Ez2; [|discriminate|discriminate]. cbn [bind] in H. inversion H; subst z d'; clear H.
-  destruct (recv_step v rs2 r2 d2 Hi2 ltac:(rewrite E2; reflexivity) ltac:(rewrite E2; exact E3)) as (Hd3 & Hin3 & Hcase3).
+  destruct (recv_step v rs2 r2 d2 Hi2 ltac:(rewrite E2; reflexivity) ltac:(rewrite E2; exact E3)) as (Hd3 & Hin3 & Hcase3 & Hns3).
   pose proof (rh_step_inv v rs2 RRecv Hi2) as Hi3.
-  exists [RRecv; RGrow 64 FILL; RRecv]. cbn zeta. unfold rh_run. cbn [fold_left]. fold rs1. fold rs2.
-  split; [exact Hi3|]. split; [exact Hd3|]. split; [rewrite Hin3, E2; cbn [rh_in]; exact Hin1|].
-  destruct Hcase3 as [Hs|[Hs Hm]]; [left; exact Hs|right; split; [exact Hs|]].
-  assert (Hm2 : rh_msgs rs2 = rh_msgs rs) by (rewrite E2; cbn [rh_msgs]; exact Hm1). rewrite Hm2 in Hm.
-  destruct r2 as [| |e2|]; cbn [rres_z] in Ez2; inversion Ez2; subst z2.
-  - left. split; [lia|exact Hm].
-  - right. split; [lia|exact Hm].
-  - right. split; [destruct e2; cbn; lia|exact Hm].
+  exists [RRecv; RGrow 64 FILL; RRecv]. unfold rh_run. cbn [fold_left]. fold rs1. fold rs2.
+  split; [exact Hi3|]. split; [exact Hd3|]. split; [rewrite Hin3, E2; cbn [rh_in]; exact Hin1|]. split.
+  - destruct Hcase3 as [Hs|[Hs Hm]]; [left; exact Hs|right; split; [exact Hs|]].
+    assert (Hm2 : rh_msgs rs2 = rh_msgs rs) by (rewrite E2; cbn [rh_msgs]; exact Hm1). rewrite Hm2 in Hm.
+    destruct r2 as [| |e2|]; cbn [rres_z] in Ez2; inversion Ez2; subst z2.
+    + left. split; [lia|exact Hm].
+    + right. split; [lia|exact Hm].
+    + right. split; [destruct e2; cbn; lia|exact Hm].
+  - intros Hs. destruct (Hns1 Hs) as [_ Hsd1]. apply Hns3. rewrite E2. cbn [rh_d dq_q dq_st]. rewrite Hcq'. exact Hsd1.
 Qed.
 
 (* ---------- the ghost state of a glue history ---------- *)
@@ -432,9 +445,9 @@ Definition rrel (v : variant) (w : gworld) (g : gh) : Prop :=
   rh_inv v (g_rs g) /\ rh_stop (g_rs g) = false /\ rh_d (g_rs g) = gr w /\
   wh_sent (g_ws g) = rh_in (g_rs g) ++ gwire w /\ rh_msgs (g_rs g) = g_del g ++ pend (gr w).
 
-(* the reader part is claimed until the reader history stops (a genuine decoding error) *)
+(* the reader history never stops: the bytes it is fed are a prefix of a well-formed stream *)
 Definition grel (v : variant) (w : gworld) (g : gh) : Prop :=
-  wh_inv0 v (g_ws g) /\ wh_e (g_ws g) = gw w /\ (rh_stop (g_rs g) = true \/ rrel v w g).
+  wh_inv0 v (g_ws g) /\ wh_e (g_ws g) = gw w /\ rrel v w g /\ gapinv v (dq_st (gr w)).
 
 Lemma pend_single v F d : cinv v F (dq_st d) (contents (dq_q d)) -> pend d <> [] ->
   exists x, pend d = [x] /\ dqueue_message d = Some x.
@@ -443,96 +456,127 @@ Proof.
   destruct (dmsg (dq_st d)); [|contradiction]. eexists. split; reflexivity.
 Qed.
 
+(* everything the writer has finished so far is a prefix of a well-formed stream *)
+Lemma enc_inv_finished v pre consumed st buf : enc_inv v pre consumed st buf ->
+  wfs0 v (firstn (edone st) buf) = true -> True.
+Proof. auto. Qed.
+
+Lemma wfs0_nozero_blocks v bs : Forall (block_ok v) bs -> wfs0 v (flat bs) = true.
+Proof.
+  intros Hbs. apply (wfs0_app_l v (flat bs) [nb 1]). rewrite (wfs0_blocks v bs 1 [] Hbs ltac:(lia)). reflexivity.
+Qed.
+
+Lemma wfs0_stream v ms P X : frames_of v ms P -> (exists bs, Forall (block_ok v) bs /\ X = flat bs) -> wfs0 v (P ++ X) = true.
+Proof.
+  intros Hf (bs & Hbs & ->). rewrite (wfs0_frames v ms P Hf). apply wfs0_nozero_blocks. exact Hbs.
+Qed.
+
+(* what the reader ring holds unread is a prefix of a well-formed stream *)
+Lemma stream_of_rel v w g : grel v w g -> sstream v (dq_st (gr w)) (contents (dq_q (gr w))).
+Proof.
+  intros (Hw & He & (Hi & Est & Hd & Hsent & Hm) & Hg). split; [|exact Hg].
+  destruct Hi as [Hh _]. unfold flat_of in Hh. rewrite Est in Hh. destruct Hh as (C & F & HfC & HI & Hc).
+  cbn [hs_msgs hs_st hs_buf] in HfC, HI, Hc. rewrite Hd in HI, Hc.
+  set (st := dq_st (gr w)) in *. set (unread := skipn (dcurr st) (contents (dq_q (gr w)))) in *.
+  (* the finished part of the writer's stream *)
+  assert (HT : exists T, wfs0 v T = true /\ exists rest, T = wh_sent (g_ws g) ++ rest).
+  { destruct Hw as [(Hlt & pre & Hfp & [[Hq Hl] Hinv])|(Hq & _ & _ & Hs0 & _)].
+    - destruct Hinv as [H0 Hdn Hb Hcn | bs open Hli Hdn Hb].
+      + exists pre. split; [rewrite <- (app_nil_r pre); apply (wfs0_stream v _ pre [] Hfp); exists []; split; [constructor|reflexivity]|].
+        exists (contents (eq_q (wh_e (g_ws g)))). symmetry. exact Hb.
+      + exists (pre ++ flat bs). split; [apply (wfs0_stream v _ pre _ Hfp); exists bs; split; [apply Hli|reflexivity]|].
+        (* the finished bytes are a prefix of sent ++ contents that covers sent *)
+        assert (Hlen : length (wh_sent (g_ws g)) <= length (pre ++ flat bs)).
+        { unfold EncShift.shift_st in Hdn. cbn [edone] in Hdn. lia. }
+        exists (skipn (length (wh_sent (g_ws g))) (pre ++ flat bs)).
+        rewrite <- (firstn_skipn (length (wh_sent (g_ws g))) (pre ++ flat bs)) at 1. f_equal.
+        assert (E : firstn (length (wh_sent (g_ws g))) ((pre ++ flat bs) ++ nb (escr (EncShift.shift_st (eq_st (wh_e (g_ws g))) (length (wh_sent (g_ws g))))) :: open) =
+                    wh_sent (g_ws g)) by (rewrite <- Hb; apply firstn_app_exact).
+        rewrite firstn_app in E. replace (length (wh_sent (g_ws g)) - length (pre ++ flat bs)) with 0 in E by lia.
+        cbn [firstn] in E. rewrite app_nil_r in E. exact E.
+    - exists []. split; [reflexivity|]. exists []. rewrite Hs0. reflexivity. }
+  destruct HT as (T & HwT & rest & ET).
+  rewrite Hsent, HI, <- !app_assoc in ET.
+  assert (Hsuf : wfs0 v (F ++ unread ++ gwire w ++ rest) = true).
+  { rewrite ET in HwT. rewrite (wfs0_frames v _ C HfC) in HwT. exact HwT. }
+  destruct Hc as (_ & _ & Hmm).
+  destruct (dmsg st) as [c|] eqn:Em.
+  - destruct Hmm as (_ & Hcode & ->). rewrite Hcode. cbn [Nat.eqb app] in *. apply (wfs0_app_l v unread _ Hsuf).
+  - destruct (Nat.eqb_spec (dcode st) 0) as [Hcode|Hcode].
+    + destruct Hmm as [_ ->]. cbn [app] in Hsuf. apply (wfs0_app_l v unread _ Hsuf).
+    + rewrite (honz_wfs v F _ _ _ _ _ Hmm) in Hsuf. apply (wfs_app_l v unread _ _ _ Hsuf).
+Qed.
+
 (* the second half of mpt_stream_dispatch: hand the held message over, look ahead *)
-Lemma disp_go v (w : gworld) rs del d0 z m d2 : rh_inv v rs -> rh_stop rs = false -> rh_d rs = d0 ->
-  rh_msgs rs = del ++ pend d0 -> pend d0 <> [] ->
+Lemma disp_go v rs del d0 z m d2 : rh_inv v rs -> rh_stop rs = false -> rh_d rs = d0 ->
+  rh_msgs rs = del ++ pend d0 -> pend d0 <> [] -> sstream v (dq_st d0) (contents (dq_q d0)) ->
   grecv v d0 = Ok (z, d2) -> m = dqueue_message d0 ->
   exists x rops, m = Some x /\ let rs' := rh_run v rs rops in
     rh_inv v rs' /\ rh_d rs' = d2 /\ rh_in rs' = rh_in rs /\
-    (rh_stop rs' = true \/ (rh_stop rs' = false /\ rh_msgs rs' = (del ++ [x]) ++ pend d2)).
+    rh_stop rs' = false /\ rh_msgs rs' = (del ++ [x]) ++ pend d2 /\ sstream v (dq_st d2) (contents (dq_q d2)).
 Proof.
-  intros Hi Est Hd Hm Hp Hg ->.
+  intros Hi Est Hd Hm Hp Hs Hg ->.
   destruct (rh_cinv v rs Hi Est) as (_ & F & Hc). rewrite Hd in Hc.
   destruct (pend_single v F d0 Hc Hp) as (x & Hx & Hmsg).
-  destruct (grecv_sim v rs z d2 Hi Est ltac:(rewrite Hd; exact Hg)) as (rops & Hi' & Hd' & Hin' & Hcase).
-  exists x, rops. split; [exact Hmsg|]. cbn zeta in *. split; [exact Hi'|]. split; [exact Hd'|]. split; [exact Hin'|].
-  destruct Hcase as [Hs|[Hs [(Hz & Hp2 & Hm2)|(Hz & Hp2 & Hm2)]]]; [left; exact Hs| |]; right; (split; [exact Hs|]).
+  destruct (grecv_sim v rs z d2 Hi Est ltac:(rewrite Hd; exact Hg)) as (rops & Hi' & Hd' & Hin' & Hcase & Hns).
+  destruct (Hns ltac:(rewrite Hd; exact Hs)) as [Hstop' Hs'].
+  exists x, rops. split; [exact Hmsg|]. cbn zeta. split; [exact Hi'|]. split; [exact Hd'|]. split; [exact Hin'|].
+  split; [exact Hstop'|]. split; [|exact Hs'].
+  destruct Hcase as [Hs0|[_ [(Hz & Hp2 & Hm2)|(Hz & Hp2 & Hm2)]]]; [congruence| |].
   - rewrite Hm2, Hm, Hx. reflexivity.
   - rewrite Hm2, Hm, Hx, Hp2, app_nil_r. reflexivity.
 Qed.
+
+Lemma sstream_gapinv v st buf : sstream v st buf -> gapinv v st.
+Proof. intros [_ H]. exact H. Qed.
 
 Lemma gdisp_sim v w g z m w' : grel v w g -> gdisp v w = Ok (z, m, w') ->
   exists g', grel v w' g' /\ g_ws g' = g_ws g /\ gw w' = gw w /\ gwire w' = gwire w /\
     g_del g' = g_del g ++ (match m with Some x => [x] | None => [] end).
 Proof.
-  intros (Hw & He & Hr) H.
-  assert (Hgw : gw w' = gw w /\ gwire w' = gwire w).
-  { unfold gdisp in H.
-    destruct (match dmsg (dq_st (gr w)) with None => do '(z, d0) <- grecv v (gr w); Ok (Some z, d0) | Some _ => Ok (None, gr w) end)
-      as [[first d0]| |]; [|discriminate|discriminate]. cbn [bind] in H.
-    assert (Hgo : forall zz mm ww, (do '(z2, d2) <- grecv v d0; Ok ((if (0 <? z2)%Z then RETRY else 0%Z), dqueue_message d0, mkgw (gw w) d2 (gwire w))) = Ok (zz, mm, ww) ->
-              gw ww = gw w /\ gwire ww = gwire w).
-    { intros zz mm ww E. destruct (grecv v d0) as [[z2 d2]| |]; [|discriminate|discriminate]. cbn [bind] in E. inversion E. split; reflexivity. }
-    destruct first as [zf|]; [|apply (Hgo _ _ _ H)].
-    destruct (zf <? 0)%Z; [inversion H; split; reflexivity|].
-    destruct (zf =? 0)%Z; [inversion H; split; reflexivity|]. apply (Hgo _ _ _ H). }
-  destruct Hgw as [Hgw Hgwire].
-  destruct Hr as [Hstop|(Hi & Est & Hd & Hsent & Hmsgs)].
-  { (* the reader history has stopped: nothing is claimed about the reader any more *)
-    exists (mkgh (g_ws g) (g_rs g) (g_del g ++ match m with Some x => [x] | None => [] end)).
-    cbn [g_ws g_rs g_del]. split; [|repeat split; try reflexivity; assumption].
-    split; [exact Hw|]. split; [rewrite Hgw; exact He|]. left. exact Hstop. }
+  intros Hg H. pose proof (stream_of_rel v w g Hg) as Hs.
+  destruct Hg as (Hw & He & (Hi & Est & Hd & Hsent & Hmsgs) & _).
   unfold gdisp in H.
   (* common second half *)
   assert (Hgo : forall rs0 del0 d0, rh_inv v rs0 -> rh_stop rs0 = false -> rh_d rs0 = d0 -> rh_in rs0 = rh_in (g_rs g) ->
-            rh_msgs rs0 = del0 ++ pend d0 -> pend d0 <> [] ->
+            rh_msgs rs0 = del0 ++ pend d0 -> pend d0 <> [] -> sstream v (dq_st d0) (contents (dq_q d0)) -> del0 = g_del g ->
             (do '(z2, d2) <- grecv v d0; Ok ((if (0 <? z2)%Z then RETRY else 0%Z), dqueue_message d0, mkgw (gw w) d2 (gwire w))) = Ok (z, m, w') ->
-            exists x rs', m = Some x /\ rh_inv v rs' /\ rh_d rs' = gr w' /\ rh_in rs' = rh_in (g_rs g) /\
-              (rh_stop rs' = true \/ (rh_stop rs' = false /\ rh_msgs rs' = (del0 ++ [x]) ++ pend (gr w')))).
-  { intros rs0 del0 d0 Hi0 Es0 Hd0 Hin0 Hm0 Hp0 E.
-    destruct (grecv v d0) as [[z2 d2]| |] eqn:Eg; [|discriminate|discriminate]. cbn [bind] in E. inversion E; subst z m w'; clear E.
-    destruct (disp_go v w rs0 del0 d0 z2 _ d2 Hi0 Es0 Hd0 Hm0 Hp0 Eg eq_refl) as (x & rops & Hx & Hi' & Hd' & Hin' & Hcase).
-    exists x, (rh_run v rs0 rops). cbn [gr]. split; [exact Hx|]. split; [exact Hi'|]. split; [exact Hd'|].
-    split; [rewrite Hin'; exact Hin0|exact Hcase]. }
-  assert (Hfin : forall x rs', m = Some x -> rh_inv v rs' -> rh_d rs' = gr w' -> rh_in rs' = rh_in (g_rs g) ->
-            (rh_stop rs' = true \/ (rh_stop rs' = false /\ rh_msgs rs' = (g_del g ++ [x]) ++ pend (gr w'))) ->
             exists g', grel v w' g' /\ g_ws g' = g_ws g /\ gw w' = gw w /\ gwire w' = gwire w /\
               g_del g' = g_del g ++ (match m with Some x => [x] | None => [] end)).
-  { intros x rs' -> Hi' Hd' Hin' Hcase. exists (mkgh (g_ws g) rs' (g_del g ++ [x])). cbn [g_ws g_rs g_del].
-    split; [|repeat split; try reflexivity; assumption].
-    split; [exact Hw|]. split; [rewrite Hgw; exact He|].
-    destruct Hcase as [Hs|[Hs Hm']]; [left; exact Hs|right]. unfold rrel. cbn [g_ws g_rs g_del].
-    split; [exact Hi'|]. split; [exact Hs|]. split; [exact Hd'|]. split; [rewrite Hin', Hgwire; exact Hsent|exact Hm']. }
+  { intros rs0 del0 d0 Hi0 Es0 Hd0 Hin0 Hm0 Hp0 Hs0 -> E.
+    destruct (grecv v d0) as [[z2 d2]| |] eqn:Eg; [|discriminate|discriminate]. cbn [bind] in E. inversion E; subst z m w'; clear E.
+    destruct (disp_go v rs0 (g_del g) d0 z2 _ d2 Hi0 Es0 Hd0 Hm0 Hp0 Hs0 Eg eq_refl) as (x & rops & Hx & Hi' & Hd' & Hin' & Hst' & Hm' & Hs').
+    rewrite Hx. exists (mkgh (g_ws g) (rh_run v rs0 rops) (g_del g ++ [x])). cbn [g_ws g_rs g_del gw gr gwire].
+    split; [|repeat split; reflexivity].
+    split; [exact Hw|]. split; [exact He|]. split; [|apply (sstream_gapinv v _ _ Hs')].
+    unfold rrel. cbn [g_ws g_rs g_del gr gwire].
+    split; [exact Hi'|]. split; [exact Hst'|]. split; [exact Hd'|]. split; [rewrite Hin', Hin0; exact Hsent|exact Hm']. }
   destruct (dmsg (dq_st (gr w))) as [c|] eqn:Em.
   - (* a message is held *)
     cbn [bind] in H.
     assert (Hp : pend (gr w) <> []) by (unfold pend; rewrite Em; discriminate).
-    destruct (Hgo (g_rs g) (g_del g) (gr w) Hi Est Hd eq_refl Hmsgs Hp H) as (x & rs' & Hx & Hi' & Hd' & Hin' & Hcase).
-    apply (Hfin x rs' Hx Hi' Hd' Hin' Hcase).
+    apply (Hgo (g_rs g) (g_del g) (gr w) Hi Est Hd eq_refl Hmsgs Hp Hs eq_refl H).
   - assert (Hp0 : pend (gr w) = []) by (unfold pend; rewrite Em; reflexivity).
     rewrite Hp0, app_nil_r in Hmsgs.
     destruct (grecv v (gr w)) as [[zf d0]| |] eqn:Eg; [|discriminate|discriminate]. cbn [bind] in H.
-    destruct (grecv_sim v (g_rs g) zf d0 Hi Est ltac:(rewrite Hd; exact Eg)) as (rops & Hi0 & Hd0 & Hin0 & Hcase0).
-    cbn zeta in *. set (rs0 := rh_run v (g_rs g) rops) in *.
+    destruct (grecv_sim v (g_rs g) zf d0 Hi Est ltac:(rewrite Hd; exact Eg)) as (rops & Hi0 & Hd0 & Hin0 & Hcase0 & Hns0).
+    destruct (Hns0 ltac:(rewrite Hd; exact Hs)) as [Hst0 Hs0].
+    set (rs0 := rh_run v (g_rs g) rops) in *.
+    destruct Hcase0 as [Hbad|[_ Hcase0]]; [congruence|].
     assert (Hnomsg : (z, m, w') = (zf, None, mkgw (gw w) d0 (gwire w)) -> (zf <= 0)%Z ->
               exists g', grel v w' g' /\ g_ws g' = g_ws g /\ gw w' = gw w /\ gwire w' = gwire w /\
                 g_del g' = g_del g ++ (match m with Some x => [x] | None => [] end)).
     { intros E Hz. inversion E; subst z m w'. exists (mkgh (g_ws g) rs0 (g_del g)). cbn [g_ws g_rs g_del gr gw gwire].
       rewrite app_nil_r. split; [|repeat split; reflexivity].
-      split; [exact Hw|]. split; [exact He|].
-      destruct Hcase0 as [Hs|[Hs [(Hz' & _)|(_ & Hp2 & Hm2)]]]; [left; exact Hs|lia|right]. unfold rrel. cbn [g_ws g_rs g_del gr gwire].
-      split; [exact Hi0|]. split; [exact Hs|]. split; [exact Hd0|]. split; [rewrite Hin0; exact Hsent|].
-      cbn [gr]. rewrite Hm2, Hp2, app_nil_r. exact Hmsgs. }
+      split; [exact Hw|]. split; [exact He|]. split; [|apply (sstream_gapinv v _ _ Hs0)].
+      destruct Hcase0 as [(Hz' & _)|(_ & Hp2 & Hm2)]; [lia|]. unfold rrel. cbn [g_ws g_rs g_del gr gwire].
+      split; [exact Hi0|]. split; [exact Hst0|]. split; [exact Hd0|]. split; [rewrite Hin0; exact Hsent|].
+      rewrite Hm2, Hp2, app_nil_r. exact Hmsgs. }
     destruct (Z.ltb_spec zf 0); [apply Hnomsg; [inversion H; reflexivity|lia]|].
     destruct (Z.eqb_spec zf 0); [apply Hnomsg; [inversion H; congruence|lia]|].
-    destruct Hcase0 as [Hs|[Hs [(Hz' & Hp2 & Hm2)|(Hz' & _)]]]; [| |lia].
-    + (* the reader history stopped inside the first receive *)
-      exists (mkgh (g_ws g) rs0 (g_del g ++ match m with Some x => [x] | None => [] end)). cbn [g_ws g_rs g_del].
-      split; [|repeat split; try reflexivity; assumption].
-      split; [exact Hw|]. split; [rewrite Hgw; exact He|]. left. exact Hs.
-    + rewrite Hmsgs in Hm2.
-      destruct (Hgo rs0 (g_del g) d0 Hi0 Hs Hd0 Hin0 Hm2 Hp2 H) as (x & rs' & Hx & Hi' & Hd' & Hin' & Hcase).
-      apply (Hfin x rs' Hx Hi' Hd' Hin' Hcase).
+    destruct Hcase0 as [(Hz' & Hp2 & Hm2)|(Hz' & _)]; [|lia].
+    rewrite Hmsgs in Hm2.
+    apply (Hgo rs0 (g_del g) d0 Hi0 Hst0 Hd0 Hin0 Hm2 Hp2 Hs0 eq_refl H).
 Qed.
 
 (* ---------- every operation keeps the relation ---------- *)
@@ -543,33 +587,46 @@ Definition keeps (v : variant) (g : gh) (w' : gworld) (got : list (list byte)) :
 
 Lemma flush_keeps v w g k z w' n : variant_ok v -> grel v w g -> gflush w k = Ok (z, w', n) -> keeps v g w' [].
 Proof.
-  intros Hv (Hw & He & Hr) H.
+  intros Hv (Hw & He & (Hi & Est & Hd & Hsent & Hm) & Hg) H.
   destruct (gflush_sim v w k (g_ws g) z w' n Hw He H) as (wops & ws' & bytes & Hrun & He' & Hs' & Hwire & Hgr & Hd' & Hc' & _).
   exists (mkgh ws' (g_rs g) (g_del g)). cbn [g_ws g_rs g_del]. rewrite app_nil_r.
   split; [|repeat split; assumption].
-  split; [apply (wh_run_inv0 v Hv wops _ _ Hw Hrun)|]. split; [exact He'|].
-  destruct Hr as [Hs|(Hi & Est & Hd & Hsent & Hm)]; [left; exact Hs|right].
+  split; [apply (wh_run_inv0 v Hv wops _ _ Hw Hrun)|]. split; [exact He'|]. split; [|rewrite Hgr; exact Hg].
   unfold rrel. cbn [g_ws g_rs g_del]. rewrite Hgr, Hs', Hwire, Hsent, app_assoc.
   split; [exact Hi|]. split; [exact Est|]. split; [exact Hd|]. split; [reflexivity|exact Hm].
 Qed.
 
+Lemma gapinv_drop v st c : dropok st c -> gapinv v st -> gapinv v (st_drop st c).
+Proof.
+  intros [Hc1 Hc] Hg. unfold gapinv, gapof in *. cbn [st_drop dcode dpos8 dcurr dpos dlen].
+  intros Hcode Hp. specialize (Hg Hcode Hp). destruct Hc as [Hc|[_ Hc]]; [lia|contradiction].
+Qed.
+
+Lemma gpoll_state v w k z w' n F : qinv (dq_q (gr w)) -> cinv v F (dq_st (gr w)) (contents (dq_q (gr w))) ->
+  gpoll w k = Ok (z, w', n) -> gw w' = gw w /\ exists c, dropok (dq_st (gr w)) c /\ dq_st (gr w') = st_drop (dq_st (gr w)) c.
+Proof.
+  intros Hq Hc H. unfold gpoll in H.
+  destruct (dqueue_shift_spec v F (gr w) Hq Hc) as (c & d1 & Es & Hdrop & Hst1 & _). rewrite Es in H. cbn [bind] in H.
+  assert (Hgoal : forall w0, gw w0 = gw w -> dq_st (gr w0) = dq_st d1 ->
+            gw w0 = gw w /\ exists c, dropok (dq_st (gr w)) c /\ dq_st (gr w0) = st_drop (dq_st (gr w)) c).
+  { intros w0 E1 E2. split; [exact E1|]. exists c. split; [exact Hdrop|]. rewrite E2. exact Hst1. }
+  destruct (if qlen (dq_q d1) =? qmax (dq_q d1) then _ else _) as [[q1|]| |]; try discriminate; cbn [bind] in H.
+  - destruct (Nat.min _ _ =? 0); [inversion H; apply Hgoal; reflexivity|].
+    destruct (match qpush q1 _ with Ok q' => Ok q' | Err _ => Ok q1 | Fault => Fault end) as [q2| |]; [|discriminate|discriminate].
+    cbn [bind] in H. inversion H; apply Hgoal; reflexivity.
+  - inversion H; apply Hgoal; reflexivity.
+Qed.
+
 Lemma poll_keeps v w g k z w' n : grel v w g -> gpoll w k = Ok (z, w', n) -> keeps v g w' [].
 Proof.
-  intros (Hw & He & Hr) H.
-  assert (Hgw : gw w' = gw w).
-  { unfold gpoll in H. destruct (dqueue_shift (gr w)) as [d1| |]; [|discriminate|discriminate]. cbn [bind] in H.
-    destruct (if qlen (dq_q d1) =? qmax (dq_q d1) then _ else _) as [[q1|]| |]; try discriminate; cbn [bind] in H.
-    - destruct (Nat.min _ _ =? 0); [inversion H; reflexivity|].
-      destruct (match qpush q1 _ with Ok q' => Ok q' | Err _ => Ok q1 | Fault => Fault end) as [q2| |]; [|discriminate|discriminate].
-      cbn [bind] in H. inversion H; reflexivity.
-    - inversion H; reflexivity. }
-  destruct Hr as [Hs|(Hi & Est & Hd & Hsent & Hm)].
-  { exists g. rewrite app_nil_r. split; [|repeat split; reflexivity].
-    split; [exact Hw|]. split; [rewrite Hgw; exact He|]. left. exact Hs. }
+  intros (Hw & He & (Hi & Est & Hd & Hsent & Hm) & Hg) H.
+  destruct (rh_cinv v (g_rs g) Hi Est) as (Hq & F & Hc). rewrite Hd in Hq, Hc.
+  destruct (gpoll_state v w k z w' n F Hq Hc H) as (Hgw & c & Hdrop & Hst).
   destruct (gpoll_sim v w k (g_rs g) z w' n Hi Est Hd H) as (rops & Hs' & Hd' & Hm' & Hin' & Hwire' & _ & Hp').
   cbn zeta in *. exists (mkgh (g_ws g) (rh_run v (g_rs g) rops) (g_del g)). cbn [g_ws g_rs g_del]. rewrite app_nil_r.
   split; [|repeat split; reflexivity].
-  split; [exact Hw|]. split; [rewrite Hgw; exact He|]. right. unfold rrel. cbn [g_ws g_rs g_del].
+  split; [exact Hw|]. split; [rewrite Hgw; exact He|]. split; [|rewrite Hst; apply gapinv_drop; assumption].
+  unfold rrel. cbn [g_ws g_rs g_del].
   split; [apply rh_run_inv; exact Hi|]. split; [exact Hs'|]. split; [exact Hd'|].
   split; [rewrite Hin', Hwire', <- app_assoc, firstn_skipn; exact Hsent|rewrite Hm', Hp'; exact Hm].
 Qed.
@@ -668,11 +725,10 @@ Qed.
 Lemma gstep_rel v w g o w' z got : variant_ok v -> grel v w g -> gstep v w o = Ok (w', z, got) ->
   exists g', grel v w' g' /\ g_del g' = g_del g ++ got /\ sp_of g' = gspec_step (sp_of g) o z.
 Proof.
-  intros Hv Hg H. pose proof Hg as (Hw & He & Hr).
+  intros Hv Hg H. pose proof Hg as (Hw & He & (Hi & Est & Hd & Hsent & Hm) & Hgap).
   assert (Hpush : forall ws' e', wh_inv0 v ws' -> wh_e ws' = e' -> wh_sent ws' = wh_sent (g_ws g) ->
             grel v (mkgw e' (gr w) (gwire w)) (mkgh ws' (g_rs g) (g_del g))).
-  { intros ws' e' Hw' He' Hs'. split; [exact Hw'|]. split; [exact He'|].
-    destruct Hr as [Hs|(Hi & Est & Hd & Hsent & Hm)]; [left; exact Hs|right].
+  { intros ws' e' Hw' He' Hs'. split; [exact Hw'|]. split; [exact He'|]. split; [|exact Hgap].
     unfold rrel. cbn [g_ws g_rs g_del gr gwire]. rewrite Hs'.
     split; [exact Hi|]. split; [exact Est|]. split; [exact Hd|]. split; [exact Hsent|exact Hm]. }
   destruct o as [d| |k|k| |]; cbn [gstep] in H.
@@ -760,10 +816,9 @@ Proof.
   assert (length a <= length b) by (rewrite Ha, firstn_length; lia). lia.
 Qed.
 
-Theorem grel_prefix v w g : grel v w g -> rh_stop (g_rs g) = false ->
-  g_del g = firstn (length (g_del g)) (wh_done (g_ws g)).
+Theorem grel_prefix v w g : grel v w g -> g_del g = firstn (length (g_del g)) (wh_done (g_ws g)).
 Proof.
-  intros (Hw & He & Hr) Est. destruct Hr as [Hs|(Hi & _ & Hd & Hsent & Hm)]; [congruence|].
+  intros (Hw & He & (Hi & Est & Hd & Hsent & Hm) & _).
   destruct Hi as [Hh _]. unfold flat_of in Hh. rewrite Est in Hh. destruct Hh as (C & F & HfC & HI & _).
   cbn [hs_msgs hs_st hs_buf] in HfC, HI.
   assert (Hdel : g_del g = firstn (length (g_del g)) (rh_msgs (g_rs g))).
@@ -787,7 +842,8 @@ Definition g_init (wcap woff rcap roff : nat) : gh :=
 
 Lemma g_init_rel v wcap woff rcap roff : grel v (gworld_init wcap woff rcap roff) (g_init wcap woff rcap roff).
 Proof.
-  unfold grel, g_init, gworld_init. cbn [g_ws g_rs g_del gw gr gwire wh_e]. split; [|split; [reflexivity|right]].
+  unfold grel, g_init, gworld_init. cbn [g_ws g_rs g_del gw gr gwire wh_e]. split; [|split; [reflexivity|split]].
+  3:{ unfold gapinv, dinit. cbn [dq_st dcode]. intros H; contradiction. }
   - unfold ring_init. destruct (Nat.eqb_spec wcap 0) as [->|Hc].
     + right. unfold wempty. cbn [wh_e wh_sent wh_done wh_cur eq_q eq_st repeat edone escr]. repeat split; reflexivity.
     + left. pose proof (wh_init_inv v (repeat FILL wcap) (woff mod wcap)) as H. unfold wh_init in H.
@@ -800,17 +856,20 @@ Proof.
 Qed.
 
 (* MAIN: any history of glue operations from fresh streams (any ring capacities incl. none, any
-   offsets, any kernel behaviour): unless the reader's decoder has reported a genuine decoding
-   error, the messages handed to the handler so far are a prefix of the messages completed on
-   the writer side, which are the ones the return values of mpt_stream_push say *)
+   offsets, any kernel behaviour): the reader's decoder never reports a decoding error (its ring
+   history never stops), and the messages handed to the handler so far are a prefix of the
+   messages completed on the writer side, which are the ones the return values of
+   mpt_stream_push say *)
 Theorem glue_history_safe v wcap woff rcap roff ops w' sp' del' : variant_ok v ->
   gfold v (gworld_init wcap woff rcap roff) (mkgsp [] []) [] ops = Ok (w', sp', del') ->
-  exists g', grel v w' g' /\ g_del g' = del' /\ wh_done (g_ws g') = sp_done sp' /\
-    (rh_stop (g_rs g') = false -> del' = firstn (length del') (sp_done sp')).
+  del' = firstn (length del') (sp_done sp') /\
+  exists g', grel v w' g' /\ g_del g' = del' /\ wh_done (g_ws g') = sp_done sp' /\ rh_stop (g_rs g') = false.
 Proof.
   intros Hv H.
   destruct (gfold_rel v Hv ops _ (g_init wcap woff rcap roff) w' sp' del' (g_init_rel v wcap woff rcap roff) H)
     as (g' & Hg' & Hd' & Hs').
-  exists g'. split; [exact Hg'|]. split; [exact Hd'|]. split; [rewrite <- Hs'; reflexivity|].
-  intros Est. rewrite <- Hd', <- Hs'. cbn [sp_of sp_done]. apply (grel_prefix v w' g' Hg' Est).
+  split.
+  - rewrite <- Hd', <- Hs'. cbn [sp_of sp_done]. apply (grel_prefix v w' g' Hg').
+  - exists g'. split; [exact Hg'|]. split; [exact Hd'|]. split; [rewrite <- Hs'; reflexivity|].
+    destruct Hg' as (_ & _ & (_ & Est & _) & _). exact Est.
 Qed.
